@@ -1086,6 +1086,9 @@ class Executor(object):
         raise Unsupported("call of %r line %s" % (v, ln))
 
     def instantiate(self, cv, args, kw, p, ln):
+        if cv.name in ("Counter", "set", "dict") and not args:
+            p = p.fork()
+            return [(p, self.contracts.new_map(self, p, cv.name))]
         c = self.contracts.lookup(cv.qual + ".__new__")
         if c is not None:
             return c.apply(self, p, None, args, kw, ln)
